@@ -201,6 +201,7 @@ def errStr (e : OpErr) : String :=
   | .constraint => "constraint violation"
   | .referential => "referential integrity violation"
   | .domain => "domain error"
+  | .range => "range error"
   | .notSupported => "not supported"
   | .timedOut => "timed out"
   | .other => "other"
